@@ -1,10 +1,11 @@
-(* C13 — FPAdder_SP with an exponent gap >= 32: the 5-bit ediff wire wraps.  2^40 + 2^8 returns 2^41. *)
+(* C13 — history: the adder BEFORE /repo 150f909 had a 5-bit ediff wire (instance fpadd_w 5), which wraps for exponent
+   gaps >= 32: 2^40 + 2^8 returned 2^41. *)
 From V Require Import Base.Bits Spec.C13 Model.Fp.
 
-Lemma fpadd_refuted_lemma :
+Lemma fpadd_5bit_refuted_lemma :
   exists a b, normal a /\ normal b /\ add_exact_normal a b /\
               (expo a - expo b) mod 32 <> expo a - expo b /\            (* the signature of the defect *)
-              fpadd a b = 1409286144 (* 0x54000000 = 2^41 *) /\ ~ add_spec a b (fpadd a b).
+              fpadd_w 5 a b = 1409286144 (* 0x54000000 = 2^41 *) /\ ~ add_spec a b (fpadd_w 5 a b).
 Proof.
   exists 1400897536 (* 0x53800000 = 2^40 *), 1132462080 (* 0x43800000 = 2^8 *).
   split; [|split; [|split; [|split; [|split]]]].
